@@ -10,7 +10,7 @@ What is proved, and from what:
   and export the same keying material.  Named hypotheses, both about cryptography only:
   `VdInjective` (VerifyDataBinding as a law of `calculate_verify_data`), the network hypothesis
   `AcceptedFinishedWasSent` (an accepted verify_data value was put on the wire by the peer; its negation
-  is the explicit disjunct "forgery" of `agree_or_forgery`) and `MasterSecretDeterminesKeys` (two derived key
+  is what "no forgery" means) and `MasterSecretDeterminesKeys` (two derived key
   blocks with the same master secret are the same key block: PRF collision resistance; `expand_keys`
   is a function of (master secret, randoms)).  SRTP-profile agreement is *not* derived here: it needs
   the ServerHello builder, whose bytes are an input (`Loc.shBody`) of this model; the harness checks
@@ -41,7 +41,12 @@ def MasterSecretDeterminesKeys (C : Crypto) : Prop :=
     C.derive p1 q1 a1 b1 e1 t1 = some k1 → C.derive p2 q2 a2 b2 e2 t2 = some k2 → k1.ms = k2.ms → k1 = k2
 
 /-- **VerifyDataBinding**, as a law of the primitive: `calculate_verify_data` (PRF over the transcript
-hash) is collision free — equal outputs come from equal master secret, label and transcript. -/
+hash) is collision free — equal outputs come from equal master secret, label and transcript. 
+**Idealisation**: no function with a bounded output (the code's verify_data is 12 bytes) is injective, so this
+hypothesis holds for no real PRF — only for the free (symbolic) interpretation, for which it is proved
+(`agreement_hypotheses_satisfiable`).  Read `agree_or_not_both_connected` as: *unless a verify_data collision
+occurred* (two different (master secret, label, transcript) triples with the same 12 bytes) or a Finished was
+forged, both-Connected endpoints hold the same keys.  -/
 def VdInjective (C : Crypto) : Prop :=
   ∀ m l t m' l' t', C.vd m l t = C.vd m' l' t' → m = m' ∧ l = l' ∧ t = t'
 
@@ -49,7 +54,7 @@ def VdInjective (C : Crypto) : Prop :=
 byte, one the server *put on the wire* in some Finished of this handshake.  (The alternative — somebody
 else produced that value — is the primitive-level event "verify_data forged", which `VdInjective` plus
 secrecy of the master secret rule out; it is not assumed away silently: see
-`agree_or_forgery`.) -/
+its contrapositive.) -/
 def AcceptedFinishedWasSent (c s : Ep) : Prop :=
   ∀ k tr body, Ev.finished k tr body ∈ c.evs → ∃ k' tr', Ev.sentFinished k' tr' body ∈ s.evs
 
@@ -98,23 +103,6 @@ theorem agree_or_not_both_connected (C : Crypto) (hV : VdInjective C) (hM : Mast
   refine ⟨by rw [h1, h2], by simp [exporter, hc, hs, h1, h2], kc, trc, body, hfc, ?_⟩
   rw [heq, hinj.2.2]
   exact hsent
-
-/-- The same with the primitive-level events as explicit disjuncts instead of hypotheses: two Connected
-endpoints agree on the key block, **or** a verify_data value was accepted that the peer never sent
-(forgery), **or** `calculate_verify_data` collided, **or** two different key blocks were derived from one
-master secret. -/
-theorem agree_or_forgery (C : Crypto) (Lc Ls : Loc) (fc fs : Option Bytes) (opsC opsS : List Op)
-    (hc : (after C Lc true fc opsC).conn = .connected) (hs : (after C Ls false fs opsS).conn = .connected) :
-    (after C Lc true fc opsC).connKeys = (after C Ls false fs opsS).connKeys ∨
-    ¬ AcceptedFinishedWasSent (after C Lc true fc opsC) (after C Ls false fs opsS) ∨
-    ¬ VdInjective C ∨ ¬ MasterSecretDeterminesKeys C := by
-  by_cases hN : AcceptedFinishedWasSent (after C Lc true fc opsC) (after C Ls false fs opsS)
-  · by_cases hV : VdInjective C
-    · by_cases hM : MasterSecretDeterminesKeys C
-      · exact Or.inl (agree_or_not_both_connected C hV hM Lc Ls fc fs opsC opsS hN hc hs).1
-      · exact Or.inr (Or.inr (Or.inr hM))
-    · exact Or.inr (Or.inr (Or.inl hV))
-  · exact Or.inr (Or.inl hN)
 
 /-- the network hypothesis is needed: without `AcceptedFinishedWasSent` nothing relates the two histories (an
 endpoint pair fed by two unrelated parties connects on unrelated keys) -/
@@ -215,7 +203,7 @@ theorem app_data_readable (A : Aead) (C : Crypto) (L : Loc) (e : Ep) (k : Keys) 
 is ClientKeyExchange, ChangeCipherSpec, Finished — exactly the records it just sent — so a server that
 lost the ClientKeyExchange gets it again with the next tick. -/
 theorem converge_partial_client_flight (C : Crypto) (L : Loc) (e : Ep) (k : Keys)
-    (hk : e.ctx.keys.isSome = false) (hv : (e.isClient && !e.ctx.skeVerified) = false)
+    (hc : e.isClient = true) (hk : e.ctx.keys.isSome = false) (hv : e.ctx.skeVerified = true)
     (hd : deriveKeys C L (emitMsg e.ctx dtlsHtClientKeyExchange L.ckeBody false).2 = some k) :
     ∃ cke ccs fin,
       (handleServerHelloDone C L e).out = sends [cke, ccs, fin] ∧
@@ -223,7 +211,7 @@ theorem converge_partial_client_flight (C : Crypto) (L : Loc) (e : Ep) (k : Keys
       cke.ctype = dtlsCtHandshake ∧ cke.sealed = false ∧ cke.plain = rawMsg dtlsHtClientKeyExchange e.ctx.msgSeq L.ckeBody ∧
       ccs.ctype = dtlsCtChangeCipherSpec ∧ fin.ctype = dtlsCtHandshake ∧ fin.sealed = true ∧ fin.epoch = e.ctx.epoch + 1 := by
   unfold handleServerHelloDone
-  simp only [hk, Bool.false_eq_true, if_false, hv, hd]
+  simp only [hc, Bool.not_true, hk, Bool.false_eq_true, if_false, hv, Bool.and_false, hd]
   refine ⟨_, _, _, rfl, rfl, rfl, ?_, rfl, rfl, rfl, ?_, rfl⟩ <;> simp [clientFinalFlight, emitMsg, hsRecord, ccsRecord]
 
 /-- converge_partial (4a'): a fragment with offset 0 *restarts* reassembly whatever the buffer held —
@@ -437,10 +425,10 @@ theorem converge_before_deadline (faults rest : List TAct)
     (by show 0 + _ + 3 < _; omega) (by show 0 + _ + 3 < _; omega)
 
 open RtcModel.DtlsFlights in
-/-- "Otherwise … Failed", the other half: if the network delivers nothing at all, each endpoint keeps
+/-- A test (one schedule, evaluated by the kernel — not a general statement): "otherwise … Failed", the other half: if the network delivers nothing at all, each endpoint keeps
 retransmitting and is Failed — dead — once its deadline fires; the deadline does nothing before the
 endpoint's 29th tick. -/
-theorem silent_network_fails_at_deadline :
+example :
     let ticks := (List.replicate (deadlineTicks - 1) [TAct.net .tickC, TAct.net .tickS]).flatten
     let early := (TSys.mk (Sys.init W0) 0 0).run W0 deadlineTicks (ticks.take 56 ++ [.deadlineC, .deadlineS])
     let τ := (TSys.mk (Sys.init W0) 0 0).run W0 deadlineTicks (ticks ++ [.deadlineC, .deadlineS])
